@@ -443,7 +443,7 @@ triage.add('C08', 'C08-R1', key('ValueError', 'raised in nfc.tag.tt4.Type4Tag.se
 triage.add('C08', 'C08-R1', key('ValueError', 'raised in nfc.tag.tt4.Type4Tag.send_apdu', "raise ValueError('unsupported max response length')"), APDU_REASON, APDU_ANCHORS)
 
 MUTANTS = [
-    ('nxp-version-map-entry-with-other-signature', 'nfc.tag.tt2_nxp', '    b"\\x00\\x04\\x04\\x01\\x01\\x00\\x0B\\x03": NTAG210,', '    b"\\x00\\x04\\x04\\x01\\x01\\x00\\x0B\\x03": NTAG21x,', 'C08-R5'),
+    ('nxp-version-map-entry-with-other-signature', 'nfc.tag.tt2_nxp', '    b"\\x00\\x04\\x04\\x01\\x01\\x00\\x0B\\x03": NTAG210,', '    b"\\x00\\x04\\x04\\x01\\x01\\x00\\x0B\\x03": MifareUltralightEV1,', 'C08-R5'),
     ('tt3-polling-length-by-response-only', 'nfc.tag.tt3', "        if len(data) != (16 if request_code == 0 else 18):", "        if len(data) not in (16, 18):", 'C08-R5'),
     ('tt3-read-stride-unbounded', 'nfc.tag.tt3', "nbr = min(attributes['nbr'], 15)", "nbr = attributes['nbr']", 'C08-R3'),
     ('tt3-read-stride-second-operand-untested', 'nfc.tag.tt3', "nbr = min(attributes['nbr'], 15)", "nbr = min(attributes['nbr'], attributes['nmaxb'], 15)", 'C08-R3'),
